@@ -79,7 +79,7 @@ def rand_cfg(rng):
         cx, cy = float(rng.integers(-5, sx + 6)) + 0.5, float(rng.integers(-5, sy + 6)) + float(rng.choice([0.0, 0.5]))
     else:
         cx, cy = float(rng.uniform(-5, sx + 5)), float(rng.uniform(-5, sy + 5))
-    ri = float(rng.choice([0.0, 0.0, 0.5, 1.0, 2.25, 3.0]))
+    ri = float(rng.choice([0.0, 0.0, 0.5, 0.6, 0.75, 0.9, 1.0, 2.25, 3.0]))     # incl. inner radii between the patch threshold 0.5 and 1
     n = int(rng.integers(1, 9))
     width = float(rng.choice([1.0, 1.0, 1.25, 1.5, 2.0, 3.5, 4.0 / 3.0, 9.0 / 7.0, 17.0 / 13.0]))
     radius = ri + n * width
